@@ -346,6 +346,11 @@ impl Client {
                 Value::Array(vec![item; n])
             }
             "workspace/applyEdit" => json!({"applied": true}),
+            // every other prompt is accepted: the rename handler then goes on to `workspace/applyEdit`
+            "window/showMessageRequest" => match params.get("actions").and_then(|a| a.as_array()).and_then(|a| a.first()) {
+                Some(first) if self.out.server_request_methods.get("window/showMessageRequest").copied().unwrap_or(0) % 2 == 1 => first.clone(),
+                _ => Value::Null,
+            },
             _ => Value::Null,
         }
     }
@@ -580,6 +585,45 @@ impl Client {
                 self.count("fault.stray_response");
                 self.send(Message::Response(Response::new_ok((*id).into(), Value::Null)));
             }
+            Action::RenameFile { from, to, require_closed } => {
+                let (from, to) = (*from, *to);
+                if from >= self.paths.len() || to >= self.paths.len() || from == to {
+                    return;
+                }
+                if self.out.disk[from].is_none() || self.out.disk[to].is_some() {
+                    return;
+                }
+                if !self.spec.docs[from].in_workspace || !self.spec.docs[to].in_workspace {
+                    return;
+                }
+                if *require_closed && (self.out.editor[from].is_some() || self.out.editor[to].is_some()) {
+                    return;
+                }
+                if let Some(p) = self.paths[to].parent() {
+                    let _ = std::fs::create_dir_all(p);
+                }
+                if std::fs::rename(&self.paths[from], &self.paths[to]).is_err() {
+                    return;
+                }
+                self.out.disk[to] = self.out.disk[from].take();
+                self.count("fault.file_renamed");
+                if self.out.editor[from].is_some() || self.out.editor[to].is_some() {
+                    self.count("probe.rename_touches_open_document");
+                }
+                self.enqueue_watch(WatchTarget::Doc(from), 3);
+                self.enqueue_watch(WatchTarget::Doc(to), 1);
+                let (old_uri, new_uri) = (self.uri(from), self.uri(to));
+                self.send(proto::notification(
+                    "workspace/didRenameFiles",
+                    json!({"files": [{"oldUri": old_uri, "newUri": new_uri}]}),
+                ));
+            }
+            Action::MiscNotification { kind } => match kind % 4 {
+                0 => self.send(proto::notification("$/setTrace", json!({"value": "verbose"}))),
+                1 => self.send(proto::notification("$/setTrace", json!({"value": 7}))),
+                2 => self.send(proto::notification("workspace/didChangeWorkspaceFolders", json!({"event": {"added": [], "removed": []}}))),
+                _ => self.send(proto::notification("$/unknownNotification", Value::Null)),
+            },
         }
     }
 
